@@ -488,9 +488,15 @@ static void explore(bool big)
     OPS.push_back({5, 0, 0, "ClearBanned"});
     OPS.push_back({6, 0, 0, "restart(dump,load)"});
 
+    // The ban list is rewritten (truncate + write + close) by almost every operation; on ext4 that forces a
+    // synchronous flush per rewrite. Prefer a RAM-backed private directory; fall back to the build scratch dir.
     const char* vb = getenv("VERIF_BUILD");
-    fs::path dir = fs::PathFromString(std::string(vb ? vb : "/verif/build") + "/scratch/" + std::to_string(getpid()));
-    fs::create_directories(dir);
+    fs::path dir = fs::PathFromString("/dev/shm/verif-c60-" + std::to_string(getpid()));
+    {
+        std::error_code ec;
+        std::filesystem::create_directories(dir, ec);
+        if (ec) { dir = fs::PathFromString(std::string(vb ? vb : "/verif/build") + "/scratch/" + std::to_string(getpid())); fs::create_directories(dir); }
+    }
     g_file = dir / "c60_banlist";
 
     const int max_depth = big ? 5 : 3;
